@@ -4,45 +4,33 @@ import MythVerif.Proofs.WsQueueTsoTac
 namespace MythVerif.WsqTso
 open MythVerif.Wsq
 
-set_option maxHeartbeats 4000000 in
 theorem o_pt2 (s s' : St) (e) : Inv s → s.opc = .pt2 e → stepO s = some s' → Inv s' := by
   intro h heq hs
   have hb := (h.pt2 e heq).1
-  cases h
   simp only [stepO, heq, hb, viewTop_nil] at hs
   split at hs
   all_goals (simp at hs; subst hs)
-  all_goals simp only [heq, ownerLocked, carry, resetting, ownerFlight] at *
-  all_goals tso_finish
+  all_goals tso_fastO h heq [pt2]
 
-set_option maxHeartbeats 4000000 in
 theorem o_pt3 (s s' : St) (e off) : Inv s → s.opc = .pt3 e off → stepO s = some s' → Inv s' := by
   intro h heq hs
   have hb := (h.pt3 e off heq).1
-  cases h
   simp only [stepO, heq, hb, viewBase_nil, viewTop_nil] at hs
   simp at hs; subst hs
-  simp only [heq, ownerLocked, carry, resetting, ownerFlight] at *
-  tso_finish
+  tso_fastO h heq [pt3]
 
-set_option maxHeartbeats 4000000 in
 theorem o_pt4 (s s' : St) (e off) : Inv s → s.opc = .pt4 e off → stepO s = some s' → Inv s' := by
   intro h heq hs
   have hv := rc1_viewTop _ _ _ _ _ _ _ (h.pt4 e off heq)
-  cases h
   simp only [stepO, heq, hv] at hs
   simp at hs; subst hs
-  simp only [heq, ownerLocked, carry, resetting, ownerFlight] at *
-  tso_finish
+  tso_fastO h heq [pt4]
 
-set_option maxHeartbeats 4000000 in
 theorem o_pt5 (s s' : St) (e off) : Inv s → s.opc = .pt5 e off → stepO s = some s' → Inv s' := by
   intro h heq hs
   have hv2 := rc2_viewBase _ _ _ _ _ _ _ (h.pt5 e off heq)
-  cases h
   simp only [stepO, heq, hv2] at hs
   simp at hs; subst hs
-  simp only [heq, ownerLocked, carry, resetting, ownerFlight] at *
-  tso_finish
+  tso_fastO h heq [pt5]
 
 end MythVerif.WsqTso
